@@ -174,7 +174,7 @@ class Dataflow:
         if l in self._expr_cache:
             return self._expr_cache[l]
         self._expr_cache[l] = ("val", (l, ()))
-        e = ("val", (l, ()))
+        e = ("val", self.canon.path([l, []]))
         sd = self.b.single_def(l) if (l > self.b.argc or l == 0) else None
         if sd and depth < 16:
             if sd[0] == "call":
